@@ -18,7 +18,7 @@ theorem replace_reading {d d1 : Disk} (hs : SInv d) (v : Vol) (fsL : List LRec) 
     (hst : (entryAt (unitAt d.raw B) k 39).getD 0 0 / 16 = 1 ∨ (entryAt (unitAt d.raw B) k 39).getD 0 0 / 16 = 2 ∨
       (entryAt (unitAt d.raw B) k 39).getD 0 0 / 16 = 3)
     (e' : Bytes) (hl : e'.length = 39) (hb : ∀ x ∈ e', x < 256) (hsb : SameBlocks (entryAt (unitAt d.raw B) k 39) e')
-    (hua : UniformAcc (e'.getD 30 0))
+    (hua : UniformAcc (e'.getD 30 0)) (hname : 47 ∉ trimName e')
     (n : Next d d1 (hdrBm d.raw) (nbmOf (hdrTotal d.raw))
       (setUnit d.raw B (patched (unitAt d.raw B) (4 + k * 39) e'))
       (clearBit (effBuf d (hdrBm d.raw) (nbmOf (hdrTotal d.raw))) B))
@@ -144,7 +144,8 @@ theorem replace_reading {d d1 : Disk} (hs : SInv d) (v : Vol) (fsL : List LRec) 
   -- the invariant
   have hinv4 : Inv (wbRaw (setUnit d.raw B (patched (unitAt d.raw B) (4 + k * 39) e')) (hdrBm d.raw) (nbmOf (hdrTotal d.raw))
       (clearBit (bufOf d.raw (hdrBm d.raw) (nbmOf (hdrTotal d.raw))) B)) := by
-    refine ⟨hshape4, by rw [htot4, hsz4]; exact hsz, _, _, ch', hrd4, by rw [htot4]; exact htree4, hw4, hn4, hgeo4, hprev4, hroot.len, ?_⟩
+    refine ⟨hshape4, by rw [htot4, hsz4]; exact hsz, _, _, ch', hrd4, by rw [htot4]; exact htree4, hw4, hn4, hgeo4, hprev4, hroot.len, ?_,
+      names_after hroot hsplit hslots4 (fun _ => hname)⟩
     intro y hy
     rw [hslots4] at hy
     rcases List.mem_append.mp hy with a | a
